@@ -3,6 +3,7 @@ package checks
 import (
 	"errors"
 	"fmt"
+	"math"
 	"strconv"
 	"strings"
 	"testing"
@@ -172,7 +173,9 @@ func c10Run(t lib.Fataler, c *c10Case, enum bool) {
 }
 
 var c10Texts = []string{"", "a", "A", "aBc", "123", "a,b", "Hello World", "z_9", " x ", "ABC", "abc-DEF", "0", "007", "-5", "1.5", "x1"}
-var c10Ints = []int64{0, 1, 7, 10, 42, 999, 1000000, -1, -12, -1000000}
+var c10Ints = []int64{0, 1, 7, 10, 42, 999, 1000000, -1, -12, -1000000,
+	// beyond what a float64 holds exactly
+	9007199254740993, -9007199254740993, 1234567890123456789, 9223372036854775807, -9223372036854775807}
 var c10FloatTexts = []string{"0.5", "1.5", "2.0", "10.25", "0.125", "3.0", "-0.5", "-2.75"}
 
 func intExpr(n int64) *lib.Node {
@@ -420,6 +423,9 @@ func TestC10Sampled(t *testing.T) {
 		asciiText := rapid.StringMatching(`[ -&(-~]{0,12}`)
 		word := rapid.StringMatching(`[a-zA-Z0-9_]{0,8}`)
 		n := int64(rapid.IntRange(-1000000, 1000000).Draw(rt, "n"))
+		if rapid.IntRange(0, 3).Draw(rt, "wideN") == 0 {
+			n = rapid.Int64Range(-math.MaxInt64, math.MaxInt64).Draw(rt, "nWide")
+		}
 		var c *c10Case
 		switch rapid.IntRange(0, 9).Draw(rt, "what") {
 		case 0:
